@@ -212,8 +212,12 @@ func (w *Writer) AddLog(l *LogRecord) error {
 		return fmt.Errorf("reftable: must specify RefName")
 	}
 
-	if !w.cfg.ExactLogMessage {
-		l.Message = strings.TrimSpace(l.Message)
+	// A deletion has no message to normalize; touching it would turn
+	// it into an (all zero) update.
+	if !w.cfg.ExactLogMessage && !l.IsDeletion() {
+		// Only the trailing newline is normalized, other
+		// whitespace is part of the message.
+		l.Message = strings.TrimRight(l.Message, "\n")
 		if strings.Contains(l.Message, "\n") {
 			return fmt.Errorf("reftable: log messages must be single line.")
 		}
